@@ -4,70 +4,113 @@
 (* from geometry: which public calls may be made in which order, what each *)
 (* must answer, and where faults may strike.                               *)
 (*                                                                         *)
-(*   calls : new (implicit), setup(P1|P2), set_problem_definition(P1|P2)   *)
-(*           and construct_roadmap (PRM only), solve                       *)
+(*   calls : new (implicit), setup(problem P1|P2, checker V1|V2),          *)
+(*           set_problem_definition(P1|P2) and construct_roadmap (PRM      *)
+(*           only), solve                                                  *)
 (*   faults: the uniform / goal sampler fails at its k-th call; goal bias  *)
 (*           outside [0,1] (negative, > 1, NaN); an empty start list       *)
+(*                                                                         *)
+(* setup installs a problem definition AND a validity checker; the same    *)
+(* problem object may be re-installed with a different checker and the     *)
+(* same checker object with a different problem (object identity is what a *)
+(* cache inside a planner would key on).  set_problem_definition replaces  *)
+(* the problem only.                                                       *)
 (*                                                                         *)
 (* The required answer of every call (Allowed) is what the trace monitor   *)
 (* enforces on the real planners (labels C08/outcome, C08/panic@site,      *)
 (* C08/latest-problem): in particular NEVER a panic.  TLC enumerates every *)
 (* call sequence up to MaxCalls for every fault; each one is executed on   *)
 (* the real planner (harness: latreplay) and validated.                    *)
+(*                                                                         *)
+(* Shape = "any": every call sequence.  Shape = "twophase": the multi-     *)
+(* query usage pattern  install, [build], query+, re-install (setup or     *)
+(* set_problem_definition), [build], query+  - long histories (up to 8     *)
+(* calls) at a cost that stays linear, for defects that need a first       *)
+(* answer (or a first failure) before a second installation.               *)
 (***************************************************************************)
 EXTENDS Integers, Sequences, FiniteSets, TLC
 
 CONSTANTS Planner,     \* "rrt" | "rrtstar" | "rrtc" | "prm"
           MaxCalls,
           Faults,      \* set of fault records [f |-> kind, k |-> position]
-          StartValid   \* <<BOOLEAN, BOOLEAN>>: is the start of P1 / P2 valid in the replay world
+          StartValid,  \* StartValid[v][p]: is the start of problem p valid under checker v (replay world)
+          SetupChoices,\* set of <<p, v>> pairs a history may pass to setup
+          Shape        \* "any" | "twophase"
 
 VARIABLES pd,       \* installed problem 0/1/2
+          vc,       \* installed checker 0/1/2
           inited,   \* setup has been called (problem AND checker installed); set_problem_definition
                     \* alone does not initialise a planner
           built,    \* PRM: roadmap non-empty
+          phase,    \* position in the two-phase usage pattern (Shape = "twophase")
           fault, res, ncalls, hist
 
-vars == <<pd, inited, built, fault, res, ncalls, hist>>
+vars == <<pd, vc, inited, built, phase, fault, res, ncalls, hist>>
 IsPrm == Planner = "prm"
 
 Init ==
-  /\ pd = 0 /\ inited = FALSE /\ built = FALSE /\ fault \in Faults /\ res = "none" /\ ncalls = 0 /\ hist = <<>>
+  /\ pd = 0 /\ vc = 0 /\ inited = FALSE /\ built = FALSE /\ phase = 0
+  /\ fault \in Faults /\ res = "none" /\ ncalls = 0 /\ hist = <<>>
 
 \* answers a conforming planner may give to solve in the current state
 AllowedSolve ==
   IF ~inited THEN {"uninit"}
   ELSE IF IsPrm /\ ~built THEN {"unsampled"}
-  ELSE IF ~StartValid[pd] THEN {"invalidstart"}
+  ELSE IF ~StartValid[vc][pd] THEN {"invalidstart"}
   ELSE {"ok", "timeout", "nosolution", "error"}      \* "error": a reported sampler/parameter fault
 
 AllowedConstruct == IF ~inited THEN {"uninit"} ELSE {"unit", "error"}
 
-Call(name, arg, allowed) ==
+(***************************************************************************)
+(* The two-phase pattern as an automaton over `phase`:                     *)
+(*   0 -setup-> 1 -[construct]-> 2 -solve-> 3 -solve-> 3                   *)
+(*   3 -setup|setpd-> 4 -[construct]-> 5 -solve-> 6 -solve-> 6             *)
+(* (construct is skipped by the tree planners; PRM may skip the second one *)
+(* - after set_problem_definition the roadmap is reused)                   *)
+(***************************************************************************)
+PhaseOk(name) ==
+  Shape # "twophase" \/
+  CASE name = "setup"     -> phase \in {0, 3}
+    [] name = "setpd"     -> phase = 3
+    [] name = "construct" -> phase \in {1, 4}
+    [] name = "solve"     -> phase \in {1, 2, 3, 4, 5, 6} /\ (IsPrm => phase # 1)
+    [] OTHER -> FALSE
+PhaseNext(name) ==
+  IF Shape # "twophase" THEN phase
+  ELSE CASE name = "setup"     -> IF phase = 0 THEN 1 ELSE 4
+         [] name = "setpd"     -> 4
+         [] name = "construct" -> phase + 1
+         [] name = "solve"     -> IF phase <= 3 THEN 3 ELSE 6
+         [] OTHER -> phase
+
+Call(name, arg, v, allowed) ==
   /\ ncalls < MaxCalls
+  /\ PhaseOk(name)
+  /\ phase' = PhaseNext(name)
   /\ ncalls' = ncalls + 1
   /\ res' \in allowed
-  /\ hist' = Append(hist, [c |-> name, i |-> arg])
+  /\ hist' = Append(hist, [c |-> name, i |-> arg, v |-> v])
 
-Setup(i) ==
-  /\ Call("setup", i, {"unit"})
-  /\ pd' = i /\ inited' = TRUE /\ built' = FALSE /\ UNCHANGED fault
+Setup(i, k) ==
+  /\ <<i, k>> \in SetupChoices
+  /\ Call("setup", i, k, {"unit"})
+  /\ pd' = i /\ vc' = k /\ inited' = TRUE /\ built' = FALSE /\ UNCHANGED fault
 
 SetPd(i) ==
-  /\ IsPrm /\ Call("setpd", i, {"unit"})
-  /\ pd' = i /\ UNCHANGED <<inited, built, fault>>
+  /\ IsPrm /\ Call("setpd", i, 0, {"unit"})
+  /\ pd' = i /\ UNCHANGED <<vc, inited, built, fault>>
 
 Construct ==
-  /\ IsPrm /\ Call("construct", 0, AllowedConstruct)
+  /\ IsPrm /\ Call("construct", 0, 0, AllowedConstruct)
   \* whether milestones were found is up to the sampler: either outcome is explored
   /\ built' \in (IF ~inited THEN {built} ELSE IF built THEN {TRUE} ELSE {TRUE, FALSE})
-  /\ UNCHANGED <<pd, inited, fault>>
+  /\ UNCHANGED <<pd, vc, inited, fault>>
 
 Solve ==
-  /\ Call("solve", 0, AllowedSolve)
-  /\ UNCHANGED <<pd, inited, built, fault>>
+  /\ Call("solve", 0, 0, AllowedSolve)
+  /\ UNCHANGED <<pd, vc, inited, built, fault>>
 
-Next == (\E i \in 1 .. 2 : Setup(i) \/ SetPd(i)) \/ Construct \/ Solve
+Next == (\E i \in 1 .. 2 : (\E k \in 1 .. 2 : Setup(i, k)) \/ SetPd(i)) \/ Construct \/ Solve
 Spec == Init /\ [][Next]_vars
 
 \* C08 at the design level: no call ever "panics", solving before setup says so, a query before
@@ -75,4 +118,6 @@ Spec == Init /\ [][Next]_vars
 NeverPanics == res # "panic"
 UninitExact == (res = "uninit") => ~inited
 UnsampledExact == (res = "unsampled") => (IsPrm /\ ~built /\ inited)
+\* an installed checker is always one that setup was given
+CheckerInstalled == inited <=> vc # 0
 =============================================================================
